@@ -1,0 +1,70 @@
+//go:build verif
+
+// Contracts for package auth (checked by /verif/govc; comment-only file).
+package auth
+
+//@ import module "github.com/foxcpp/maddy/framework/module"
+
+// ---- C14: SASL mechanisms over password providers ----
+// The configured normalisation function and the providers are functions of their arguments for the duration of a
+// call (assumed): normOK/normOf for auth_map_normalize, provOK(p, user, password) for a provider's decision.
+//@ uninterp func normOK(s SASLAuth, u string) bool
+//@ uninterp func normOf(s SASLAuth, u string) string
+//@ uninterp func provOK(p module.PlainAuth, u string, pw string) bool
+//@ extern func (*SASLAuth).usernameForAuth#AuthNormalize$call(u string) (r string, err error)
+//@   ensures (err == nil) == normOK(*s, u)
+//@   ensures err == nil ==> r == normOf(*s, u)
+//@ extern func (module.PlainAuth).AuthPlain(p module.PlainAuth, username string, password string) error
+//@   ensures (result == nil) == provOK(p, username, password)
+// The user name handed to providers: normalised (when a normaliser is configured), then looked up in the user-name
+// map (when one is configured; a name without an entry is refused).
+//@ axiom err-invalid-auth-cred-set: ErrInvalidAuthCred != nil && ErrUnsupportedMech != nil
+//@ pure func normName(s SASLAuth, u string) string = s.AuthNormalize == nil ? u : normOf(s, u)
+//@ pure func normFails(s SASLAuth, u string) bool = s.AuthNormalize != nil && !normOK(s, u)
+//@ pure func mapOK(s SASLAuth, u string) bool = !normFails(s, u) && (s.AuthMap == nil || tblHit(s.AuthMap, normName(s, u)))
+//@ pure func mapName(s SASLAuth, u string) string = s.AuthMap == nil ? normName(s, u) : tblVal(s.AuthMap, normName(s, u))
+//@ func (*SASLAuth).usernameForAuth
+//@   prop C14
+//@   requires s != nil
+//@   ensures (result1 == nil) == mapOK(*s, saslUsername)
+//@   ensures result1 == nil ==> result0 == mapName(*s, saslUsername)
+// anyProv: some provider among the first n accepts (user, password).
+//@ rec func anyProvM(a Map[int,module.PlainAuth], n int, u string, pw string) bool = n <= 0 ? false : (anyProvM(a, n-1, u, pw) || provOK(a[n-1], u, pw))
+//@ lemma anyProvM-mono induction n prop C14: forall a Map[int,module.PlainAuth], n int, i int, u string, pw string :: 0 <= i && i < n && provOK(a[i], u, pw) ==> anyProvM(a, n, u, pw)
+//@ pure func anyProv(ps []module.PlainAuth, n int, u string, pw string) bool = anyProvM(elemsOf(ps), n, u, pw)
+// AuthPlain: accepted exactly when the mapped name exists and some configured provider accepts (mapped name, password).
+//@ func (*SASLAuth).AuthPlain
+//@   prop C14
+//@   requires s != nil
+//@   ensures (result == nil) == (len(s.Plain) > 0 && mapOK(*s, username) && anyProv(s.Plain, len(s.Plain), mapName(*s, username), password))
+//@   assert-call (module.PlainAuth).AuthPlain : $username == mapName(*s, username) && $password == password && $p == s.Plain[rangeindex + 1]
+//@   loop 0 invariant mapOK(*s, username) || rangeindex == -1
+//@   loop 0 invariant !anyProv(s.Plain, rangeindex + 1, mapName(*s, username), password)
+//@   loop 0 invariant rangeindex >= 0 ==> lastErr != nil
+
+// PLAIN and LOGIN. gCb*: what the success callback was told (ghost; the callback stores the identity as the
+// session's authenticated user).
+//@ ghost var gCbCalls int
+//@ ghost var gCbIdentity string
+//@ ghost var gCbUser string
+//@ extern func (*SASLAuth).CreateSASL#successCb$call(identity string, data ContextData) error
+//@   modifies gCbCalls, gCbIdentity, gCbUser
+//@   ensures gCbCalls == old(gCbCalls) + 1 && gCbIdentity == identity && gCbUser == data.Username
+//@ pure func authOK(s SASLAuth, u string, pw string) bool = len(s.Plain) > 0 && mapOK(s, u) && anyProv(s.Plain, len(s.Plain), mapName(s, u), pw)
+// PLAIN: an authorization identity different from the authentication identity is refused; the decision is AuthPlain's
+// for exactly the credentials given; on success the callback is told the user name given, once.
+//@ func (*SASLAuth).CreateSASL$1
+//@   prop C14
+//@   requires s != nil
+//@   modifies gCbCalls, gCbIdentity, gCbUser
+//@   ensures result == nil ==> (identity == "" || identity == username) && authOK(*s, username, password) && gCbCalls == old(gCbCalls) + 1 && gCbIdentity == username && gCbUser == username
+//@   ensures identity != "" && identity != username ==> result != nil
+//@   ensures !authOK(*s, username, password) ==> result != nil
+//@   ensures result != nil && (identity != "" && identity != username || !authOK(*s, username, password)) ==> gCbCalls == old(gCbCalls)
+// LOGIN: the same decision and the same identity as PLAIN for the same credentials.
+//@ func (*SASLAuth).CreateSASL$2
+//@   prop C14
+//@   requires s != nil
+//@   modifies gCbCalls, gCbIdentity, gCbUser
+//@   ensures result == nil ==> authOK(*s, username, password) && gCbCalls == old(gCbCalls) + 1 && gCbIdentity == username && gCbUser == username
+//@   ensures !authOK(*s, username, password) ==> result != nil && gCbCalls == old(gCbCalls)
